@@ -10,7 +10,7 @@ from concurrent.futures import ThreadPoolExecutor
 VERIF = os.path.dirname(os.path.dirname(os.path.abspath(__file__)))
 SUB = os.environ.get("MATRIX_DIR", "seeded")  # "seeded" (property-breaking changes) or "harmless" (behaviour-preserving refactorings)
 ids = sorted(d for d in os.listdir(os.path.join(VERIF, SUB)) if os.path.isfile(os.path.join(VERIF, SUB, d, "patch.diff")))
-checks = [f"C{i:02d}" for i in range(1, 21)]
+checks = os.environ.get("MATRIX_CHECKS", "").split() or [f"C{i:02d}" for i in range(1, 21)]  # MATRIX_CHECKS="C03 C06": only those (rows are merged)
 ROOT = "/tmp/mx"
 os.makedirs(ROOT, exist_ok=True)
 
@@ -56,7 +56,8 @@ if __name__ == "__main__":
             out.setdefault(mid, {})[c] = kind if kind in ("ok",) else [kind, first]
     path = os.path.join(VERIF, SUB, "MATRIX.json")
     old = json.load(open(path)) if os.path.exists(path) else {}
-    old.update(out)
+    for mid, row in out.items():
+        old.setdefault(mid, {}).update(row)
     json.dump(old, open(path, "w"), indent=1)
     for m in sel:
         row = out[m]
